@@ -22,6 +22,7 @@ import (
 	"runtime"
 	"sort"
 	"strconv"
+	"strings"
 	"sync"
 )
 
@@ -46,6 +47,26 @@ func Choices(steps []Step) []int {
 // recorded enabled-sets: the system under test is not deterministic under the
 // scheduler, which invalidates every conclusion. It is a hard error, never a finding.
 var ErrDiverged = errors.New("schedule diverged while replaying a recorded prefix")
+
+// DivergedError is the error returned by Run on divergence; it wraps ErrDiverged and
+// says where: At is the hook point of the step that could not be reproduced.
+type DivergedError struct {
+	StepIndex int
+	Recorded  Step // zero if the prefix simply asked for a choice that does not exist
+	Now       Step
+	Msg       string
+}
+
+func (e *DivergedError) Error() string { return ErrDiverged.Error() + ": " + e.Msg }
+func (e *DivergedError) Unwrap() error { return ErrDiverged }
+
+// At names the hook point involved (the recorded one if known).
+func (e *DivergedError) At() string {
+	if e.Recorded.At != "" {
+		return e.Recorded.At
+	}
+	return e.Now.At
+}
 
 // ErrStepLimit is returned when a schedule does not end within MaxSteps decisions.
 var ErrStepLimit = errors.New("step limit reached (livelock?)")
@@ -76,6 +97,7 @@ type S struct {
 
 	prefix []int
 	expect []Step
+	bubble uint64 // synctest bubble of the goroutine that called New
 
 	mu       sync.Mutex
 	threads  []*T // adopted, by creation index
@@ -95,7 +117,8 @@ type S struct {
 // choice 0. expect, if not nil, holds the recorded steps of the prefix (all but the
 // last choice of the prefix come from a recorded run); Run verifies them.
 func New(wait func(), prefix []int, expect []Step) *S {
-	return &S{Wait: wait, prefix: prefix, expect: expect, byG: map[uint64]*T{}, MaxSteps: 10000}
+	_, bubble := goid()
+	return &S{Wait: wait, prefix: prefix, expect: expect, bubble: bubble, byG: map[uint64]*T{}, MaxSteps: 10000}
 }
 
 // NewThread registers a thread explicitly (call it from the controller goroutine,
@@ -132,8 +155,14 @@ func (t *T) Exit() {
 // Point is the hook for goroutines that are not created by the harness (request
 // handlers): the calling goroutine is identified by its goroutine id; on its first
 // point it becomes a new thread named after the part of `at` before the first ':'.
+// A goroutine that does not belong to the scheduler's bubble (e.g. one left behind by
+// other code that calls the same hooks) is never parked: it could not be observed by
+// Wait and would corrupt the enabled sets.
 func (s *S) Point(at string) {
-	g := goid()
+	g, bubble := goid()
+	if bubble != s.bubble {
+		return
+	}
 	s.mu.Lock()
 	if s.shutdown {
 		s.mu.Unlock()
@@ -237,8 +266,13 @@ func (s *S) Run() error {
 			c = s.prefix[i]
 		}
 		if c >= len(enabled) {
+			now := Step{Enabled: len(enabled), Thread: enabled[0].ID, At: enabled[0].at}
+			var rec Step
+			if i < len(s.expect) {
+				rec = s.expect[i]
+			}
 			s.mu.Unlock()
-			return fmt.Errorf("%w: step %d wants choice %d of %d enabled", ErrDiverged, i, c, len(enabled))
+			return &DivergedError{StepIndex: i, Recorded: rec, Now: now, Msg: fmt.Sprintf("step %d wants choice %d of %d enabled", i, c, len(enabled))}
 		}
 		t := enabled[c]
 		st := Step{Enabled: len(enabled), Choice: c, Thread: t.ID, At: t.at}
@@ -247,7 +281,7 @@ func (s *S) Run() error {
 			// the last element of the prefix is the new deviation: same enabled set, other choice
 			if e.Enabled != st.Enabled || (e.Choice == st.Choice && (e.Thread != st.Thread || e.At != st.At)) {
 				s.mu.Unlock()
-				return fmt.Errorf("%w: step %d recorded %+v, now %+v", ErrDiverged, i, e, st)
+				return &DivergedError{StepIndex: i, Recorded: e, Now: st, Msg: fmt.Sprintf("step %d recorded %+v, now %+v", i, e, st)}
 			}
 		}
 		s.steps = append(s.steps, st)
@@ -293,20 +327,38 @@ func (s *S) Shutdown() {
 	}
 }
 
-// goid returns the id of the calling goroutine ("goroutine 123 [running]:...").
-func goid() uint64 {
-	var buf [64]byte
+// goid returns the id of the calling goroutine and the id of the synctest bubble it
+// belongs to (0 = none), parsed from the first line of its stack trace:
+// "goroutine 123 [running, synctest bubble 7]:".
+func goid() (id, bubble uint64) {
+	var buf [128]byte
 	n := runtime.Stack(buf[:], false)
 	b := buf[:n]
+	for i := 0; i < len(b); i++ {
+		if b[i] == '\n' {
+			b = b[:i]
+			break
+		}
+	}
 	const p = "goroutine "
 	if len(b) < len(p) {
-		return 0
+		return 0, 0
 	}
 	b = b[len(p):]
 	i := 0
 	for i < len(b) && b[i] >= '0' && b[i] <= '9' {
 		i++
 	}
-	id, _ := strconv.ParseUint(string(b[:i]), 10, 64)
-	return id
+	id, _ = strconv.ParseUint(string(b[:i]), 10, 64)
+	const q = "synctest bubble "
+	line := string(b)
+	if j := strings.Index(line, q); j >= 0 {
+		k := j + len(q)
+		e := k
+		for e < len(line) && line[e] >= '0' && line[e] <= '9' {
+			e++
+		}
+		bubble, _ = strconv.ParseUint(line[k:e], 10, 64)
+	}
+	return id, bubble
 }
